@@ -137,6 +137,14 @@ func TestDuration(t *testing.T) {
 				d = (int64(rng.Uint64()) >> uint(rng.IntN(50))) / int64(time.Hour) * int64(time.Hour)
 			}
 			durCase(r, d, &e, &n)
+			if i%4 != 0 && i%3 == 0 {
+				// a whole number of seconds/minutes/hours anywhere in the range, plus or minus a few
+				// nanoseconds: the text must keep the fraction (a float64 cannot tell these apart beyond 2^53 ns)
+				off := []int64{1, -1, 2, -3, 999, -1000, 1_000_000, -999_999_999}[rng.IntN(8)]
+				if (off > 0 && d <= math.MaxInt64-off) || (off < 0 && d >= math.MinInt64-off) {
+					durCase(r, d+off, &e, &n)
+				}
+			}
 		}
 		r.Eval(e)
 		r.NontrivialN(n)
@@ -242,7 +250,7 @@ func TestHostPortPrefix(t *testing.T) {
 // ---------------------------------------------------------------- URL
 
 type urlLocal struct {
-	prev *urlutil.URL // the previous accepted URL of this worker
+	prev                                                 *urlutil.URL // the previous accepted URL of this worker
 	e, n, accepted, stdNonIdem, jsonEscaped, invalidUTF8 int64
 }
 
